@@ -407,5 +407,7 @@ theorem tie_number_to_dna_other (v L : PV) (fuel : Nat) (h1 : ∀ s, v ≠ .str 
   | none => simp [Gen.number_to_dna, Gen.number_to_dna.body, pyTypeIs]
   | unbound => exact absurd rfl h3
   | arr l => simp [Gen.number_to_dna, Gen.number_to_dna.body, pyTypeIs]
+  | set l => simp [Gen.number_to_dna, Gen.number_to_dna.body, pyTypeIs]
+  | dict ks vs => simp [Gen.number_to_dna, Gen.number_to_dna.body, pyTypeIs]
 
 end Dsw.Tie
